@@ -160,7 +160,7 @@ Definition choice2 (n : rtree) (e : list rtree) : rtree := fold_left RChoice e n
 Fixpoint look (t : rtree) (k : cfg -> rtree) (alt : cfg -> rtree) (alt2 : cfg -> list rtree) : rtree :=
   match t with
   | RLeaf K => k K
-  | RSRet _ r K => RRet None r K false
+  | RSRet Kb r K => choice (RRet None r K false) (alt Kb)
   | RAct c p t' => let n := RAct None p (look t' k alt alt2) in match c with Some K => choice2 (choice n (alt K)) (alt2 K) | None => n end
   | RTest c x a b => let n := RTest None x (look a k alt alt2) (look b k alt alt2) in match c with Some K => choice2 (choice n (alt K)) (alt2 K) | None => n end
   | RRaise _ t' => RRaise None (look t' k alt alt2)
